@@ -122,7 +122,7 @@ func runC07(c *Ctx, r *Report) {
 	c07UnfitQuotient(c, r, dotKernel)
 
 	// ---- R07.5 operator signature
-	r.Rule("R07.5", "operator signature of the kernels: no two operators share a disposition matrix, and the numeric kernels ((INT|FLOAT)×(INT|FLOAT)) of each operator apply the Go operator the DSL operator denotes to values derived from both operands, left operand on the left for the non-commutative ones (+ ADD, - SUB, * MUL, / and // QUO, % REM, & AND, | OR, ^ XOR, << SHL, >> and >>> SHR, relational LSS/LEQ/GTR/GEQ/EQL/NEQ, min/max a comparison or math.Min/Max)")
+	r.Rule("R07.5", "operator signature of the kernels: no two operators share a disposition matrix, and the numeric kernels ((INT|FLOAT)×(INT|FLOAT)) of each operator apply the Go operator the DSL operator denotes to values derived from both operands, left operand on the left for the non-commutative ones (+ ADD, - SUB, * MUL, / and // QUO, % REM, & AND, | OR, ^ XOR, << SHL, >> SHR of a signed and >>> SHR of an unsigned left operand, relational LSS/LEQ/GTR/GEQ/EQL/NEQ, min/max a comparison or math.Min/Max)")
 	used := map[*DispTable]string{}
 	for _, op := range allBin {
 		o := ot[op]
@@ -161,6 +161,9 @@ type opSig struct {
 	commut  bool
 	intOnly bool
 	altNegR bool // SUB may be written as ADD of the negated right operand
+	// for the right shifts: the static type of the shifted operand decides
+	// between sign extension and zero fill
+	leftSign string
 }
 
 func (o opSig) describe() string {
@@ -188,8 +191,8 @@ var opTokens = map[string]opSig{
 	"|":   {toks: []token.Token{token.OR}, commut: true, intOnly: true},
 	"^":   {toks: []token.Token{token.XOR}, commut: true, intOnly: true},
 	"<<":  {toks: []token.Token{token.SHL}, intOnly: true},
-	">>":  {toks: []token.Token{token.SHR}, intOnly: true},
-	">>>": {toks: []token.Token{token.SHR}, intOnly: true},
+	">>":  {toks: []token.Token{token.SHR}, intOnly: true, leftSign: "signed"},
+	">>>": {toks: []token.Token{token.SHR}, intOnly: true, leftSign: "unsigned"},
 	"<":   {toks: []token.Token{token.LSS}},
 	"<=":  {toks: []token.Token{token.LEQ}},
 	">":   {toks: []token.Token{token.GTR}},
@@ -262,6 +265,14 @@ func kernelApplies(f *ssa.Function, want opSig, depth int) (bool, string) {
 				for _, t := range want.toks {
 					if x.Op != t {
 						continue
+					}
+					if want.leftSign != "" {
+						bt, _ := x.X.Type().Underlying().(*types.Basic)
+						unsigned := bt != nil && bt.Info()&types.IsUnsigned != 0
+						if (want.leftSign == "unsigned") != unsigned {
+							found = append(found, x.Op.String()+" on a "+x.X.Type().String())
+							continue
+						}
 					}
 					if want.commut || (l0 && r1) {
 						return true, x.Op.String() + "(left, right)"
